@@ -3,6 +3,7 @@ package main
 import (
 	"bufio"
 	"fmt"
+	"io"
 	"os"
 	"os/exec"
 	"sort"
@@ -299,6 +300,12 @@ func judgeC10(out *evid.Out, r *dRun) {
 	}
 	if a := atomic.LoadInt64(&r.alertSum); a > r.nClaimed && !r.cfg.Hookless {
 		viol("alerts-exceed-claims", fmt.Sprintf("alerter reported %d missed messages but only %d ring positions were claimed", a, r.nClaimed))
+	}
+	if !r.cfg.Hookless && r.ProducersHung == "" {
+		// every claimed ring position is delivered, or reported missed, at most once
+		if a, d := atomic.LoadInt64(&r.alertSum), int64(len(seen)); a+d > r.nClaimed {
+			viol("alerts-plus-deliveries-exceed-claims", fmt.Sprintf("%d distinct messages delivered + %d reported missed > %d ring positions claimed (a position was counted twice)", d, a, r.nClaimed))
+		}
 	}
 	// porcupine, as a second opinion on short histories
 	if n := len(r.writes) + len(r.deliveries); n > 0 && n <= 20 && r.ProducersHung == "" {
@@ -636,7 +643,7 @@ func c11Fatal(out *evid.Out) {
 	if err != nil {
 		return
 	}
-	for _, wrap := range []string{"plain", "filtered", "multi", "sync", "adapter"} {
+	for _, wrap := range []string{"plain", "filtered", "multi", "sync", "adapter", "multi-after-levelwriter", "multi-after-plainwriter", "multi-before-others", "sync-multi", "filtered-in-multi", "with-level-output"} {
 		for _, n := range []int{0, 1, 5, 31} {
 			path := fmt.Sprintf("/verif/build/out/c11fatal.%d.%s.%d", os.Getpid(), wrap, n)
 			os.MkdirAll("/verif/build/out", 0o755)
@@ -668,6 +675,12 @@ func c11Fatal(out *evid.Out) {
 	}
 }
 
+// nopLevelWriter is a user-written per-level sink without a Close method.
+type nopLevelWriter struct{}
+
+func (nopLevelWriter) Write(p []byte) (int, error)                       { return len(p), nil }
+func (nopLevelWriter) WriteLevel(l zerolog.Level, p []byte) (int, error) { return len(p), nil }
+
 type fileW struct{ f *os.File }
 
 func (w fileW) Write(p []byte) (int, error) {
@@ -694,6 +707,18 @@ func c11FatalChild(args []string) int {
 		l = zerolog.New(zerolog.SyncWriter(dw))
 	case "adapter":
 		l = zerolog.New(zerolog.LevelWriterAdapter{Writer: dw})
+	case "multi-after-levelwriter":
+		l = zerolog.New(zerolog.MultiLevelWriter(nopLevelWriter{}, dw))
+	case "multi-after-plainwriter":
+		l = zerolog.New(zerolog.MultiLevelWriter(io.Discard, dw))
+	case "multi-before-others":
+		l = zerolog.New(zerolog.MultiLevelWriter(dw, nopLevelWriter{}, io.Discard))
+	case "sync-multi":
+		l = zerolog.New(zerolog.SyncWriter(zerolog.MultiLevelWriter(nopLevelWriter{}, dw)))
+	case "filtered-in-multi":
+		l = zerolog.New(zerolog.MultiLevelWriter(nopLevelWriter{}, &zerolog.FilteredLevelWriter{Writer: zerolog.LevelWriterAdapter{Writer: dw}, Level: zerolog.TraceLevel}))
+	case "with-level-output":
+		l = zerolog.New(io.Discard).With().Str("svc", "x").Logger().Level(zerolog.DebugLevel).Output(zerolog.MultiLevelWriter(nopLevelWriter{}, dw))
 	default:
 		l = zerolog.New(dw)
 	}
